@@ -5640,14 +5640,29 @@ def merge_parts(parts, reassign="voice"):
     # create a new part and fill it with all objects in other parts
     new_part = Part(parts[0].id, quarter_duration=int(lcm))
 
-    note_arrays = [part.note_array(include_staff=True) for part in parts]
-    # find the unique number of voices for each part (voice numbers start from 1)
-    unique_voices = [np.unique(note_array["voice"]) for note_array in note_arrays]
-    # find the unique number of staves for each part (a missing staff is 0 in the
-    # note array and counts as staff 1, as it does when the elements are renumbered)
+    # find the voices and staves in use in each part. Every element that gets renumbered
+    # below counts (rests, tied notes, clefs, words and directions too, not only the
+    # notes of the note array); a missing staff counts as staff 1, as it does when the
+    # elements are renumbered
+    unique_voices = [
+        np.unique(
+            [
+                e.voice
+                for e in part.iter_all(GenericNote, include_subclasses=True)
+                if e.voice is not None
+            ]
+        ).astype(int)
+        for part in parts
+    ]
     unique_staves = [
-        np.unique(np.where(note_array["staff"] == 0, 1, note_array["staff"]))
-        for note_array in note_arrays
+        np.unique(
+            [
+                e.staff if e.staff is not None else 1
+                for e in part.iter_all()
+                if isinstance(e, (GenericNote, Words, Direction, Clef))
+            ]
+        ).astype(int)
+        for part in parts
     ]
     # find the maximum number of voices for each part (voice numbers start from 1)
     maximum_voices = [max(unique_voice, default=1) for unique_voice in unique_voices]
